@@ -208,8 +208,12 @@ type replayFile struct {
 	Property string          `json:"property"`
 	Key      string          `json:"key"`
 	Msg      string          `json:"msg"`
+	Test     string          `json:"test,omitempty"`
 	Case     json.RawMessage `json:"case"`
 }
+
+// currentTestName is recorded in replay files so that ./check --replay picks the right test.
+var currentTestName string
 
 // prop describes one generated-input check.
 type prop[C any] struct {
@@ -226,6 +230,7 @@ type prop[C any] struct {
 }
 
 func (p *prop[C]) run(t *testing.T) {
+	currentTestName = t.Name()
 	rec := ev.New(p.ID)
 	rec.Rule(p.Rule)
 	for _, a := range p.Assume {
@@ -375,7 +380,7 @@ func writeReplay(id string, rec *ev.Recorder) string {
 	}
 	os.MkdirAll(dir, 0o755)
 	cs, _ := json.Marshal(rec.FailCase)
-	rf := replayFile{Property: id, Key: rec.FailKey, Msg: rec.FailMsg, Case: cs}
+	rf := replayFile{Property: id, Key: rec.FailKey, Msg: rec.FailMsg, Test: currentTestName, Case: cs}
 	data, _ := json.MarshalIndent(rf, "", " ")
 	sum := sha1.Sum(cs)
 	path := filepath.Join(dir, fmt.Sprintf("%s-%x.json", id, sum[:6]))
